@@ -8,7 +8,9 @@ PROPS = {
     'C11': ('theories/Properties/C11.v', ['MeshLayout'], 'c11'),
     'C12': ('theories/Properties/C12.v', ['ProtoLayout'], 'c12'),
     'C13': ('theories/Properties/C13.v', ['ImageLayout', 'FormatNames'], 'c13'),
+    'C01': ('theories/Properties/C01.v', [], 'c01'),
     'C02': ('theories/Properties/C02.v', [], 'c02'),
+    'C05': ('theories/Properties/C05.v', [], 'c05'),
     'C04': ('theories/Properties/C04.v', [], 'c04'),
     'C08': ('theories/Properties/C08.v', [], 'c08'),
     'C10': ('theories/Properties/C10.v', [], 'c10'),
